@@ -565,4 +565,122 @@ theorem step_processed_prefix (v : Variant) (s : St) (e : Ev) : s.processed <+: 
 
 end Mrt
 
+/-! ## bmp-tcp-in (all settings) -/
+namespace BmpIn
+
+/-- listener on the configured address; every router page under the unit's path -/
+def Inv (s : St) : Prop := s.bound = s.cfg.listen ∧ ∀ r ∈ s.routers, r.page = s.cfg.path
+
+theorem inv_init (c : Cfg) : Inv (init c) := ⟨rfl, by intro r hr; cases hr⟩
+
+theorem conn_inv {s : St} (hi : Inv s) (slot : Nat) : Inv (conn s slot).1 := by
+  unfold conn
+  split
+  · exact hi
+  · refine ⟨hi.1, ?_⟩
+    intro r hr
+    simp only [List.mem_append, List.mem_singleton] at hr
+    rcases hr with h | h
+    · exact hi.2 r h
+    · subst h; rfl
+
+theorem inv_map {s : St} (hi : Inv s) (f : Router → Router) (hf : ∀ x, (f x).page = x.page)
+    (tn : Nat) (sn : List (Nat × Nat)) :
+    Inv { s with routers := s.routers.map f, tnext := tn, seen := sn } := by
+  refine ⟨hi.1, ?_⟩
+  intro r hr
+  simp only [List.mem_map] at hr
+  obtain ⟨x, hx, rfl⟩ := hr
+  rw [hf]; exact hi.2 x hx
+
+theorem initMsg_inv {v : Variant} {s : St} (hi : Inv s) (k t : Nat) : Inv (initMsg v s k t).1 := by
+  unfold initMsg
+  cases s.routers.find? (·.conn == k) with
+  | none => exact hi
+  | some r =>
+    simp only
+    split <;>
+      first
+      | exact inv_map hi (fun x => if x.conn == k then { x with readMode := s.cfg.mode } else x)
+          (by intro x; split <;> rfl) _ _
+      | exact inv_map hi (fun x => if x.conn == k then { x with readMode := s.cfg.mode, tmpl := s.cfg.tmpl } else x)
+          (by intro x; split <;> rfl) _ _
+
+theorem close_inv {s : St} (hi : Inv s) (k : Nat) : Inv (close s k).1 := by
+  unfold close
+  split
+  · exact hi
+  · exact ⟨hi.1, fun r hr => hi.2 r (List.mem_filter.mp hr).1⟩
+
+theorem reload_inv {v : Variant} {s : St} (hi : Inv s) (c : Cfg) : Inv (reload v s c).1 := by
+  unfold reload
+  split
+  · exact ⟨rfl, fun r hr => hi.2 r hr⟩
+  · refine ⟨rfl, ?_⟩
+    intro r hr
+    simp only [List.mem_map] at hr
+    obtain ⟨x, _, rfl⟩ := hr
+    rfl
+
+theorem step_inv {v : Variant} {s : St} (hi : Inv s) (e : Ev) : Inv (step v s e).1 := by
+  cases e with
+  | conn slot => exact conn_inv hi slot
+  | init k t => exact initMsg_inv hi k t
+  | close k => exact close_inv hi k
+  | reload c => exact reload_inv hi c
+
+theorem run_inv {v : Variant} {s : St} (hi : Inv s) (es : List Ev) : Inv (run v s es) := by
+  induction es generalizing s with
+  | nil => exact hi
+  | cons e es ih => exact ih (step_inv hi e)
+
+/-- only a reload touches the stored configuration -/
+theorem step_cfg_of_not_reload {v : Variant} {s : St} {e : Ev} (h : ∀ c, e ≠ .reload c) : (step v s e).1.cfg = s.cfg := by
+  cases e with
+  | conn slot => simp only [step, conn]; split <;> rfl
+  | init k t =>
+    simp only [step, initMsg]
+    split
+    · rfl
+    · split <;> rfl
+  | close k => simp only [step, close]; split <;> rfl
+  | reload c => exact absurd rfl (h c)
+
+def withPath (p : Nat) (c : Cfg) : Cfg := { c with path := p }
+
+theorem withPath_lastCfg (p : Nat) (c : Cfg) (es : List Ev) :
+    withPath p (lastCfg (withPath p c) es) = withPath p (lastCfg c es) := by
+  induction es generalizing c with
+  | nil => rfl
+  | cons e es ih =>
+    cases e with
+    | reload c' => rfl
+    | conn slot => exact ih c
+    | init k t => exact ih c
+    | close k => exact ih c
+
+/-- the stored configuration after a history: the last reload's, with the start path as written -/
+theorem run_cfg (v : Variant) (s : St) (es : List Ev) :
+    (run v s es).cfg = match v.bmppath with
+      | .asWritten => withPath s.cfg.path (lastCfg s.cfg es)
+      | .repaired => lastCfg s.cfg es := by
+  induction es generalizing s with
+  | nil => cases v.bmppath <;> simp [run, lastCfg, withPath]
+  | cons e es ih =>
+    cases e with
+    | reload c =>
+      rw [run, ih]
+      cases hv : v.bmppath
+      · simp only [step, reload, hv, lastCfg]
+        exact withPath_lastCfg s.cfg.path c es
+      · simp [step, reload, hv, lastCfg]
+    | conn slot =>
+      rw [run, ih, step_cfg_of_not_reload (by intro c h; cases h)]; cases v.bmppath <;> simp [lastCfg]
+    | init k t =>
+      rw [run, ih, step_cfg_of_not_reload (by intro c h; cases h)]; cases v.bmppath <;> simp [lastCfg]
+    | close k =>
+      rw [run, ih, step_cfg_of_not_reload (by intro c h; cases h)]; cases v.bmppath <;> simp [lastCfg]
+
+end BmpIn
+
 end Rotonda.ReconfUnits
